@@ -82,6 +82,11 @@ CLAIMED.update({
             'offsets/widths that size(), capacity(), data() and iterator dereference load; natvis conditions match inlined(). The text GDB prints is not decided.',
             'Trusts GDB\'s documented Value/Type lookup semantics, clang DWARF, LLVM -O2 as normaliser.',
             'DESIGN.md section 6 C20'),
+    'C05': ('other', 'mutation-before-throw typestate on complete IR paths of the listed operations; relocation-by-move reachability for throwing-move elements',
+            'Necessary and (for value preservation) sufficient structural condition: nothing observable is mutated before the last call that can throw, '
+            'and relocation copies when the move may throw; leak-freedom on unwind exits.',
+            'Trusts may-throw/may-effect summaries of opaque callees, path slicing by seeding pos == end().',
+            'DESIGN.md section 6 C05'),
 })
 
 NOT_APPLICABLE = {
